@@ -17,11 +17,11 @@ from mc.report import add_sample, add_violation, count, new_part
 
 LEVEL = "model_checking"
 RULE = ("BFS over histories of {new qubit, single-qubit gate, cnot, in-place measurement, destructive measurement, free, "
-        "create_keep(1|2), recv_keep(1|2), sequential create/recv_keep with a measuring post routine, create/recv context with a "
+        "create_keep(1|2), recv_keep(1|2), sequential create/recv_keep(1) without a post routine (handle used at once), sequential create/recv_keep with a measuring post routine, create/recv context with a "
         "measuring body, flush} on live-handle ranks, enabled only while the number of live qubits stays within the budget "
         "(budget-1 on single-communication-qubit hardware), for budgets 1..5 x {generic, NV config, NV config + NV transpiler}; "
         "state = (handle ids, digest of pending commands with addresses renamed, builder qubit list, controller unit module); "
-        "distinct = distinct states; non-trivial = every transition (each replays the history on the real pipeline)")
+        "plus, per configuration and budget 2..4, the same alphabet with a flush after every operation until the frontier is empty (closed graph: flushed histories of any length); distinct = distinct states; non-trivial = every transition (each replays the history on the real pipeline)")
 ASSUMPTIONS = ["EPR responses are delivered on demand (one per blocked wait) on fresh physical qubits, all Phi+",
                "a handle the program consumed (destructive measurement, free, measuring post routine / context body) is no longer "
                "counted as live by the harness; the property demands the SDK agrees",
